@@ -6,7 +6,8 @@ verus! {
 global size_of usize == 8;
 
 // ------------------------------------------------------------------------------------ frames
-pub uninterp spec fn crc32_spec(data: Seq<u8>, frame_type: u8) -> u32;
+/// checksum of a frame: the CRC of the type byte followed by the payload (the CRC function itself is uninterpreted)
+pub open spec fn crc32_spec(data: Seq<u8>, frame_type: u8) -> u32 { crate::vshim::crc32fast::crc_of(seq![frame_type] + data) }
 
 pub open spec fn BLOCK() -> int { 32768 }
 pub open spec fn HDR() -> int { 7 }
